@@ -49,12 +49,12 @@ var (
 		{Level{Kind: "proc", DB: "d", Obj: "p1"}, 9},
 	}
 	// privileges worth granting at each kind of level (the ones the probes look at come first and are favoured)
-	hotGlobal = []string{"SELECT", "INSERT", "UPDATE", "DELETE", "CREATE", "DROP", "ALTER", "INDEX", "CREATE VIEW", "TRIGGER", "EXECUTE", "CREATE USER"}
+	hotGlobal  = []string{"SELECT", "INSERT", "UPDATE", "DELETE", "CREATE", "DROP", "ALTER", "INDEX", "CREATE VIEW", "TRIGGER", "EXECUTE", "CREATE USER"}
 	coldGlobal = []string{"REFERENCES", "SHOW VIEW", "RELOAD", "PROCESS", "FILE", "SHOW DATABASES", "LOCK TABLES", "CREATE ROUTINE", "ALTER ROUTINE", "EVENT", "CREATE ROLE", "DROP ROLE", "CREATE TEMPORARY TABLES"}
-	hotDB     = []string{"SELECT", "INSERT", "UPDATE", "DELETE", "CREATE", "DROP", "ALTER", "INDEX", "CREATE VIEW", "TRIGGER", "EXECUTE"}
-	coldDB    = []string{"REFERENCES", "SHOW VIEW", "LOCK TABLES", "CREATE ROUTINE", "ALTER ROUTINE", "EVENT", "CREATE TEMPORARY TABLES"}
-	hotTable  = []string{"SELECT", "INSERT", "UPDATE", "DELETE", "CREATE", "DROP", "ALTER", "INDEX", "CREATE VIEW", "TRIGGER"}
-	coldTable = []string{"REFERENCES", "SHOW VIEW"}
+	hotDB      = []string{"SELECT", "INSERT", "UPDATE", "DELETE", "CREATE", "DROP", "ALTER", "INDEX", "CREATE VIEW", "TRIGGER", "EXECUTE"}
+	coldDB     = []string{"REFERENCES", "SHOW VIEW", "LOCK TABLES", "CREATE ROUTINE", "ALTER ROUTINE", "EVENT", "CREATE TEMPORARY TABLES"}
+	hotTable   = []string{"SELECT", "INSERT", "UPDATE", "DELETE", "CREATE", "DROP", "ALTER", "INDEX", "CREATE VIEW", "TRIGGER"}
+	coldTable  = []string{"REFERENCES", "SHOW VIEW"}
 )
 
 func (g *Gen) pickLevel() Level {
